@@ -143,27 +143,32 @@ CHECKS = {
                    "predicates on the recorded history (a call that never returns = bubble deadlock or missed virtual deadline); plus an order-only "
                    "oracle for the real gNMI Impl against an in-process scripted gRPC server"),
         level_text=("Half A (virtual time): thousands (quick) to 320 000 (thorough) generated scripts of 0-6 connection attempts (constructor returns an Impl / fails / "
-                    "parks until cancelled or the destination timeout; Impl.Subscribe ok / error; 0-4 messages of 1-3 notifications with delays; then error, io.EOF, "
+                    "parks until cancelled or the destination timeout / is 'deaf': a transport that does not watch its context, whose constructor takes its time and then "
+                    "succeeds and whose stream keeps handing over its scripted messages after cancellation until the Impl itself is closed; Impl.Subscribe ok / error; 0-4 messages of 1-3 notifications with delays; then error, io.EOF, "
                     "ErrStopReading or block until closed/cancelled; later attempts connect and block) with generated RetryBaseDelay / RetryMaxDelay (randomisation 0), "
                     "Notification- or ProtoHandler, nil or recording callbacks. The stop action - Close, or cancellation of the caller's context followed by Close - is "
                     "issued at a generated instant aimed (by a prediction of the script's timeline) before Subscribe, during the initial or a later connect, between "
-                    "connect and first message, while streaming, or inside a backoff sleep. Judged exactly as stated: Subscribe and Close have both returned no later "
-                    "than (later of stop action and Subscribe call) + current backoff interval, the interval being bounded by the never-reset exponential envelope "
+                    "connect and first message, while streaming, inside a backoff sleep, inside the constructor of a deaf transport, or inside the backoff after attempts that never "
+                    "produced an Impl and before a retry over a deaf transport (in both the underlying client has nothing to close and only the context carries the news). "
+                    "Judged exactly as stated: Subscribe and Close have both returned no later "
+                    "than (latest of stop action, Subscribe call and - a deaf transport cannot be interrupted before it has an Impl - the return of the last underlying Subscribe over a "
+                    "deaf transport) + current backoff interval, the interval being bounded by the never-reset exponential envelope "
                     "min(RetryBaseDelay*1.5^k, RetryMaxDelay) after k earlier backoffs (resets only shorten it); Subscribe of an unclosed reconnecting client never returns "
                     "and after every ended attempt whose retry falls due before the stop action a new attempt has begun within that interval; in the recorded trace "
                     "(begin/return of the underlying Subscribe, disconnect, reset, return) every ended attempt is followed by exactly one disconnect, every retry is "
                     "preceded by exactly one reset after that disconnect, none of them runs while an attempt is running; after Close returned the handler receives the "
-                    "notifications of at most one further message (plain clients with 0-4 messages still buffered by the transport at Close, the situation of "
-                    "TestClientUpdatesAfterClose); the handler sees notifications in hand-over order. Half B (real sockets): the registered gNMI Impl under client.Reconnect "
+                    "notifications of at most one further message, for every client kind (exercised by plain clients with 0-4 messages still buffered by the transport at "
+                    "Close, the situation of TestClientUpdatesAfterClose, and by reconnecting clients over deaf transports, where a Close that does not wait for Subscribe "
+                    "lets the whole stream through); the handler sees notifications in hand-over order. Half B (real sockets): the registered gNMI Impl under client.Reconnect "
                     "against an in-process grpc server sending 1-5 scripted connections (0-6 responses each: updates/deletes tagged connection/message/index, sync) that then "
                     "fail or end; judged on order only: the trace is cut at the disconnect callbacks, on every stream that delivered anything Connected is first, the rest is "
                     "exactly one scripted connection's notifications message by message in the order sent, streams follow connection order. "
-                    "Sensitivity: 18 seeded mutants (Close not cancelling before init, doubled backoff sleep, always sleeping RetryMaxDelay, lost ctx check after an attempt, disconnect twice / "
+                    "Sensitivity: 19 seeded mutants (ReconnectClient.Close returning the underlying Close error before waiting for Subscribe, Close not cancelling before init, doubled backoff sleep, always sleeping RetryMaxDelay, lost ctx check after an attempt, disconnect twice / "
                     "never / after reset, reset after the retry / never, giving up after a failure, Close not cancelling, Close not closing the Impl, closed-check removed from the "
                     "read loop, backoff not reset after configuration, Connected once per client / after the first message, reversed updates, swapped messages) are each reported "
-                    "within 15 cases and their shrunk replays fail again; an interruptible backoff sleep (an improvement) stays silent. Bounded exploration, not a proof."),
-        level_note=("trusts the ~300-line scripted Impl (honours cancellation on entry and while waiting, Close unblocks Recv, context checked before the closed flag so that the "
-                    "outcome of ReconnectClient.Close does not depend on which of its two signals wakes Recv) and the trace wrapper around the underlying client; the harness acts only "
+                    "within 20 cases and their shrunk replays fail again; an interruptible backoff sleep (an improvement) stays silent. Bounded exploration, not a proof."),
+        level_note=("trusts the ~350-line scripted Impl (honours cancellation on entry and while waiting unless scripted deaf, Close always unblocks Recv, context checked before the closed flag so that the "
+                    "outcome of ReconnectClient.Close does not depend on which of its two signals wakes Recv; a deaf stream notices cancellation only once it has nothing scripted left) and the trace wrapper around the underlying client; the harness acts only "
                     "at quiescent points (synctest.Wait) at instants offset by 3/7 ns from every scripted or backoff instant, so no two actions race; "
                     "the backoff envelope is computed with the same backoff library from the documented parameters; the reset policy of the retry loop is not judged; "
                     "windows inside one call (Close between the Impl being created and being published by BaseClient.Subscribe) are not reachable without gates; "
@@ -174,7 +179,13 @@ CHECKS = {
               "reconnect, as observed in the recorded history; half B: cases are (client kind, 1-5 scripted connections); non-trivial = at least two (re)connected streams "
               "delivered data; distinct = distinct hash of the scenario"),
         assumptions=COMMON + [SYNCTEST_ASSUMPTION,
-                              "the Impl honours cancellation of the context it was created with and its Close unblocks its own Recv (as gRPC streams do); an Impl that ignores both can hang any client",
+                              "the Impl's Close unblocks its own Recv (as closing a gRPC connection does); it honours cancellation of the context it was created with, except transports scripted deaf, "
+                              "which ignore it while connecting and while they have scripted messages or a scripted end left (client.Impl / InitImpl do not promise to watch the context); "
+                              "an Impl that neither ends, nor watches its context, nor is ever closed can hang any client and is not generated",
+                              "while a deaf transport is connecting there is no Impl to close, so the termination bound counts from the return of that underlying Subscribe "
+                              "(the unchanged client does not close the late Impl but lets its stream run to its scripted end before Subscribe and Close return); "
+                              "a deaf transport under a client that was closed or cancelled BEFORE Subscribe was called is not generated (Close has then returned legitimately and the "
+                              "unchanged client still runs one attempt on the cancelled context, which only a context-watching transport refuses)",
                               "RetryRandomization is 0 in every case (jitter uses the global math/rand); 1 <= RetryBaseDelay <= RetryMaxDelay <= 11*RetryBaseDelay",
                               "a plain BaseClient/CacheClient is only closed once Subscribe has produced an Impl (Close before that is documented to return ErrClientInit and stop nothing); "
                               "Close before Subscribe and during the initial connect are exercised on the reconnecting client",
